@@ -122,6 +122,14 @@ def units(tier, seed):
             block.append({"terms": fam, "icpt": icpt, "lv": {"f": ["1", "2", "10"], "g": ["0", "1"]}})
             block.append({"terms": fam, "icpt": icpt, "lv": {"f": ["True", "False", "None"], "g": ["1.5", "-2e3"]}})
     u.append(block)
+    # more than a thousand rows, laid out cell by cell (not shuffled); two factors share their level names, so their columns
+    # start and end with the same values
+    block = []
+    tl = [list(p) for n_ in (1, 2, 3) for p in itertools.permutations(["f", "g", "h"], n_)]
+    for fam in [[t] for t in tl] + [[["f"], ["g"]], [["f"], ["g"], ["h"]], [["g"], ["f"], ["f", "g"]], [["f"], ["g"], ["h"], ["f", "g", "h"]], [["f", "x"], ["g"]], [["h"], ["g", "x"], ["f"]]]:
+        for icpt in (True, False):
+            block.append({"terms": fam, "icpt": icpt, "lv": {"f": ["no", "yes"], "g": ["no", "yes"], "h": ["no", "maybe", "yes"]}, "reps": 100, "sorted": True})
+    u.append(block)
     # the same transform on two different variables in one design
     block = []
     for a1, a2 in (("poly(x, 2)", "poly(z, 2)"), ("scale(x)", "scale(z)"), ("poly(x, 2)", "poly(z, 3)"), ("center(x)", "scale(z)")):
@@ -184,10 +192,13 @@ def prepare(tier, seed):
     _SEED = seed
 
 
-def frame_for(lv, reps=2):
-    key = (tuple(sorted((k, tuple(v) if isinstance(v, list) else v) for k, v in lv.items())), reps)
+def frame_for(lv, reps=2, laid_out=False):
+    key = (tuple(sorted((k, tuple(v) if isinstance(v, list) else v) for k, v in lv.items())), reps, laid_out)
     if key not in _FRAMES:
-        _FRAMES[key] = frames.factorial(lv, reps=reps, seed=_SEED)
+        df = frames.factorial(lv, reps=reps, seed=_SEED, shuffle=not laid_out)
+        if laid_out:  # cell by cell: all replicates of a cell are adjacent
+            df = df.sort_values(list(lv), kind="stable").reset_index(drop=True)
+        _FRAMES[key] = df
     return _FRAMES[key]
 
 
@@ -254,7 +265,7 @@ def check_case(case, acc):
     from formulae import design_matrices
     from fmc.core import exc_sig
 
-    df = frame_for(case["lv"], case.get("reps", 2))
+    df = frame_for(case["lv"], case.get("reps", 2), case.get("sorted", False))
     f = formula_of(case)
     acc.calls += 1
     acc.traces += 1
